@@ -151,12 +151,16 @@ def build(prop, tier):
                 d["stores"].add(w.where)
                 d["via"].add(w.via_where)
                 d["apis"].add(q)
-                d["funcs"].add(w.func)
+                d["funcs"].add((w.func, w.attr, w.where))
     for (g, via), d in sorted(shared.items()):
         gname = "%s.%s" % (g[1].split(".")[-1], g[2])
         fshort = via.split(".", 2)[-1]
         name = "shared-write/%s/in/%s" % (gname, fshort)
-        allowed = [frame.allowed_attr_for_site(type("W", (), {"func": f})()) for f in sorted(d["funcs"])]
+        allowed = [frame.allowed_attr_for_site(type("W", (), {"func": f, "attr": at})()) for (f, at, wh) in sorted(d["funcs"], key=repr)]
+        notok = [(f, at, wh) for (f, at, wh) in sorted(d["funcs"], key=repr)
+                 if frame.allowed_attr_for_site(type("W", (), {"func": f, "attr": at})()) is None]
+        if notok:
+            d["stores"] = {wh for (_f, _a, wh) in notok}
         if all(a is not None for a in allowed):
             F.append(frame.Finding(name, True, "every store is a fill of %s (structure verified separately)" % sorted({"%s.%s" % (a[1]["cls"], a[1]["attr"]) for a in allowed}),
                                    sorted(d["via"])[0], {"apis": sorted(d["apis"])}))
